@@ -1047,6 +1047,7 @@ func (ls *LState) callR(nargs, nret, rbase int) {
 		Parent:     ls.currentFrame,
 		TailCall:   0,
 	}, lv, meta)
+	ls.nCcalls++
 	if ls.G.MainThread == nil {
 		ls.G.MainThread = ls
 		ls.G.CurrentThread = ls
@@ -1054,6 +1055,7 @@ func (ls *LState) callR(nargs, nret, rbase int) {
 	} else {
 		ls.mainLoop(ls, ls.currentFrame)
 	}
+	ls.nCcalls--
 	if nret != MultRet {
 		ls.reg.SetTop(rbase + nret)
 	}
@@ -1811,6 +1813,7 @@ func (ls *LState) Call(nargs, nret int) {
 
 func (ls *LState) PCall(nargs, nret int, errfunc *LFunction) (err error) {
 	err = nil
+	nCcalls := ls.nCcalls
 	sp := ls.stack.Sp()
 	base := ls.reg.Top() - nargs - 1
 	oldpanic := ls.Panic
@@ -1823,6 +1826,7 @@ func (ls *LState) PCall(nargs, nret int, errfunc *LFunction) (err error) {
 		ls.hasErrorFunc = false
 		rcv := recover()
 		if rcv != nil {
+			ls.nCcalls = nCcalls
 			if _, ok := rcv.(*ApiError); !ok {
 				err = newApiErrorS(ApiErrorPanic, fmt.Sprint(rcv))
 				if ls.Options.IncludeGoStackTrace {
